@@ -240,7 +240,7 @@ func credX(tag int) lsq.StakeCredential {
 }
 
 func isCredX(c lsq.StakeCredential) bool {
-	return c.Bytes[2] == 0xEE && c.Bytes[3] == 0xEE && c != credOf(int(c.Bytes[0])<<8|int(c.Bytes[1]))
+	return c.Bytes[2] == 0xEE && c.Bytes[3] == 0xEE // credOf: bytes 2 and 3 differ by one
 }
 
 func (e *lsqEnd) session() uint64 {
@@ -519,10 +519,65 @@ type txsubEnd struct {
 	*conn
 	client *txsub.Client
 	server *txsub.Server
+	salt   int64
+}
+
+// rejectReason: a reject reason with its exact wire bytes (localtxsubmission.CborRejectReason)
+type rejectReason struct{ raw []byte }
+
+func (r rejectReason) Error() string                { return fmt.Sprintf("reject reason %x", r.raw) }
+func (r rejectReason) MarshalCBOR() ([]byte, error) { return r.raw, nil }
+
+// opaque reason items: well-formed CBOR with a registered tag around content of the wrong type
+var opaqueItems = [][]byte{
+	{0xd8, 0x18, 0x01},             // 24(1): encoded-CBOR tag around an integer
+	{0xd8, 0x1e, 0x82, 0x01, 0x00}, // 30([1, 0]): rational with denominator zero
+	{0xc2, 0x01},                   // 2(1): bignum tag around an integer
+	{0xc3, 0x01},                   // 3(1): negative bignum tag around an integer
+}
+
+// reasonOf: the reason the tagging server gives when it rejects the transaction of this request. The form is a
+// function of the tag (plain forms) or of the tag and the seed (opaque forms); every form carries the tag.
+func reasonOf(tag int, opaque bool, salt int64) []byte {
+	t, _ := fxcbor.Marshal(tag)
+	if opaque {
+		item := opaqueItems[int((int64(tag)+salt)%int64(len(opaqueItems)))]
+		return append(append([]byte{0x82}, t...), item...)
+	}
+	switch (tag / 2) % 3 {
+	case 0: // text
+		b, _ := fxcbor.Marshal(fmt.Sprintf("tag-%d", tag))
+		return b
+	case 1: // generic structure [tag, [tag, "why"]]
+		b, _ := fxcbor.Marshal([]any{tag, []any{tag, "why"}})
+		return b
+	default: // typed: era mismatch whose era names carry the tag
+		b, err := (&ledger.EraMismatch{
+			OtherEra:  ledger.EraInfo{Index: uint8(tag % 7), Name: fmt.Sprintf("tag-%d", tag)},
+			LedgerEra: ledger.EraInfo{Index: 6, Name: "Conway"},
+		}).MarshalCBOR()
+		if err != nil {
+			b, _ = fxcbor.Marshal(fmt.Sprintf("tag-%d", tag))
+		}
+		return b
+	}
+}
+
+// whose: the request a reject reason belongs to
+func whose(reason []byte, salt int64) string {
+	for t := 0; t < 512; t++ {
+		if bytes.Equal(reason, reasonOf(t, false, salt)) {
+			return fmt.Sprintf("the rejection of transaction %d", t)
+		}
+		if bytes.Equal(reason, reasonOf(t, true, salt)) {
+			return fmt.Sprintf("the (opaque) rejection of transaction %d", t)
+		}
+	}
+	return "no rejection the server sent"
 }
 
 func newTxsub(seed int64) endpoint {
-	e := &txsubEnd{conn: newConn(seed)}
+	e := &txsubEnd{conn: newConn(seed), salt: seed & 0xffff}
 	jit := &jitter{rng: rand.New(rand.NewSource(seed + 5))}
 	cfg := txsub.NewConfig(
 		txsub.WithSubmitTxFunc(func(_ txsub.CallbackContext, tx txsub.MsgSubmitTxTransaction) error {
@@ -530,10 +585,15 @@ func newTxsub(seed int64) endpoint {
 			raw, _ := tx.Raw.Content.([]byte)
 			var tag int
 			if err := fxcbor.Unmarshal(raw, &tag); err != nil {
-				return fmt.Errorf("tagging server: transaction bytes are not a tag: %w", err)
+				// a qx request: [tag]: rejected with an opaque reason
+				var x []int
+				if err2 := fxcbor.Unmarshal(raw, &x); err2 != nil || len(x) != 1 {
+					return fmt.Errorf("tagging server: transaction bytes are not a tag: %w", err)
+				}
+				return rejectReason{reasonOf(x[0], true, e.salt)}
 			}
 			if tag%2 == 1 {
-				return fmt.Errorf("tag-%d", tag)
+				return rejectReason{reasonOf(tag, false, e.salt)}
 			}
 			return nil
 		}),
@@ -549,24 +609,29 @@ func newTxsub(seed int64) endpoint {
 }
 
 func (e *txsubEnd) supports(op string) bool { return strings.HasPrefix(op, "q") }
+func (e *txsubEnd) dead() bool              { return isDone(e.client.Protocol) }
 
 func (e *txsubEnd) call(op string, tag int) obs {
+	opaque := op == "qx"
 	body, _ := fxcbor.Marshal(tag)
+	if opaque {
+		body, _ = fxcbor.Marshal([]int{tag})
+	}
 	err := e.client.SubmitTx(uint16(ledger.TxTypeConway), body)
 	var rej txsub.TransactionRejectedError
 	switch {
 	case err == nil:
-		if tag%2 == 1 {
+		if opaque || tag%2 == 1 {
 			return obs{foreign: "SubmitTx was accepted although the server rejects this transaction", session: -1, next: -1}
 		}
 	case errors.As(err, &rej):
-		var reason string
-		if _, derr := cbor.Decode(rej.ReasonCbor, &reason); derr != nil {
-			return obs{foreign: "reject reason is not the server's text: " + derr.Error(), session: -1, next: -1}
+		if !opaque && tag%2 == 0 {
+			return obs{foreign: fmt.Sprintf("SubmitTx was rejected although the server accepts this transaction; the reason %x is %s", rej.ReasonCbor, whose(rej.ReasonCbor, e.salt)), session: -1, next: -1}
 		}
-		if reason != fmt.Sprintf("tag-%d", tag) {
-			return obs{foreign: fmt.Sprintf("SubmitTx got the verdict %q of another transaction", reason), session: -1, next: -1}
+		if !bytes.Equal(rej.ReasonCbor, reasonOf(tag, opaque, e.salt)) {
+			return obs{foreign: fmt.Sprintf("SubmitTx got the verdict of another transaction: the reason %x is %s", rej.ReasonCbor, whose(rej.ReasonCbor, e.salt)), session: -1, next: -1}
 		}
+		return obs{opaque: opaque, session: -1, next: -1}
 	default:
 		return errObs(err)
 	}
@@ -672,6 +737,18 @@ type protoDef struct {
 	// which parts of the model's server state the replies of this protocol carry
 	sessionOf func(o outRec) (int, bool) // expected session value of a call, if the reply carries one
 	stressOps []string                   // own-tag ops used by the stress run
+	opaque    bool                       // the library's server of this protocol can be made to answer in an opaque form (qx)
+}
+
+func hasX(r *row) bool {
+	for _, p := range r.Prog {
+		for _, op := range p {
+			if op == "qx" {
+				return true
+			}
+		}
+	}
+	return false
 }
 
 func tagOf(g, i int) int { return 2*(8*g+i) + (g+i)%2 }
@@ -682,15 +759,15 @@ var protos = []protoDef{
 			return 100*o.Snap + o.Acqn, true
 		}
 		return 0, false
-	}, []string{"qa", "qb"}},
+	}, []string{"qa", "qb"}, true},
 	{"txmonitor", newTxmon, func(o outRec) (int, bool) {
 		if o.Op == "qc" {
 			return o.Acqn, true
 		}
 		return 0, false
-	}, []string{"qa"}},
-	{"txsubmit", newTxsub, func(outRec) (int, bool) { return 0, false }, []string{"qa"}},
-	{"peershare", newPeer, func(outRec) (int, bool) { return 0, false }, []string{"qa"}},
+	}, []string{"qa"}, false},
+	{"txsubmit", newTxsub, func(outRec) (int, bool) { return 0, false }, []string{"qa"}, true},
+	{"peershare", newPeer, func(outRec) (int, bool) { return 0, false }, []string{"qa"}, false},
 }
 
 type finding struct {
@@ -698,6 +775,8 @@ type finding struct {
 }
 
 var callTimeout = 30 * time.Second
+
+var opaqueSeen, opaqueFailed atomic.Int32 // replays with an opaque reply / of those, the client failed the connection
 
 func hString(r *row) string {
 	var s []string
@@ -804,6 +883,68 @@ func runRow(r *row, pd protoDef, seed int64) (fs []finding, calls int, dead stri
 		}
 	}
 	ov := overlaps(r)
+	// REPLY FORM: which kind of client is this (what did it do with the first opaque reply), and which calls may
+	// have failed because of it. Positions of the invocation / return events of every call in the history:
+	invPos, retPos := make([][]int, r.G), make([][]int, r.G)
+	for pos, e := range r.H {
+		g := int(e[1].(float64)) - 1
+		if e[0] == "I" {
+			invPos[g] = append(invPos[g], pos)
+		} else {
+			retPos[g] = append(retPos[g], pos)
+		}
+	}
+	isDead := false
+	firstX, branch := -1, ""
+	for g := 0; g < r.G; g++ {
+		for i, op := range r.Prog[g] {
+			if op == "qx" && ep.supports(op) {
+				if !isDead && results[g][i].err != "" {
+					isDead = ep.dead()
+				}
+				if firstX < 0 || invPos[g][i] < firstX {
+					firstX = invPos[g][i]
+					branch = "raw"
+					if results[g][i].err != "" {
+						branch = "fail"
+					}
+				}
+			}
+		}
+	}
+	if firstX >= 0 {
+		opaqueSeen.Add(1)
+		if isDead {
+			opaqueFailed.Add(1)
+		}
+	}
+	// the model's expectation for this kind of client (sequential rows: the first opaque call shows the kind)
+	var expOut [][]outRec
+	switch {
+	case firstX < 0 || r.Onop == "" || r.Onop == branch:
+		expOut = r.Out
+	case len(r.Alt) == r.G:
+		expOut = r.Alt
+	}
+	// a call may return an error and no reply only on a connection that failed on an opaque reply: sequential
+	// rows take it from the model's row (snap = -2), concurrent ones from the history (an opaque request was
+	// invoked before the failing call returned) and the connection must really be down
+	mayFail := func(g, i int) bool {
+		if !isDead {
+			return false
+		}
+		if r.Seq && expOut != nil {
+			return expOut[g][i].Snap == -2
+		}
+		for g2 := 0; g2 < r.G; g2++ {
+			for i2, op2 := range r.Prog[g2] {
+				if op2 == "qx" && ep.supports(op2) && invPos[g2][i2] < retPos[g][i] {
+					return true
+				}
+			}
+		}
+		return false
+	}
 	for g := 0; g < r.G; g++ {
 		for i, op := range r.Prog[g] {
 			if !ep.supports(op) || (op == "rel" && r.Out[g][i].Snap == -1) {
@@ -811,6 +952,9 @@ func runRow(r *row, pd protoDef, seed int64) (fs []finding, calls int, dead stri
 			}
 			calls++
 			o := results[g][i]
+			if o.err != "" && mayFail(g, i) {
+				continue // no reply at all: nothing that could belong to another request
+			}
 			conc := 0
 			if ov[g][i] {
 				conc = 1
@@ -826,10 +970,13 @@ func runRow(r *row, pd protoDef, seed int64) (fs []finding, calls int, dead stri
 				fs = append(fs, finding{key("foreign-reply"), fmt.Sprintf("%s (tag %d): %s", op, tagOf(g+1, i+1), o.foreign)})
 				continue
 			}
-			if !r.Seq {
-				continue // session values depend on the interleaving the real run took
+			if !r.Seq || expOut == nil || o.opaque {
+				continue // session values depend on the interleaving the real run took; an undecoded reply shows none
 			}
-			exp := r.Out[g][i]
+			exp := expOut[g][i]
+			if exp.Snap == -2 {
+				continue // the model's client has failed the connection here; this one answered with its own reply
+			}
 			if want, ok := pd.sessionOf(exp); ok && o.session != want {
 				fs = append(fs, finding{key("session"), fmt.Sprintf("%s carried session value %d, the model's server answered this call with %d (point %d, acquisition %d)", op, o.session, want, exp.Snap, exp.Acqn)})
 			}
@@ -970,17 +1117,30 @@ func main() {
 			if r.Proto != "" && r.Proto != pd.name {
 				continue
 			}
+			if hasX(r) && !pd.opaque {
+				continue // no opaque replies through this protocol's server: the row without qx is replayed anyway
+			}
 			if pd.name == "txsubmit" || pd.name == "peershare" {
 				// these clients have no sessions: rows that differ only in acquire/release/query kind are the same replay
+				// (the form of the reply, plain or opaque, is kept)
 				var proj []string
 				for _, p := range r.Prog {
-					n := 0
+					n, f := 0, ""
 					for _, op := range p {
 						if strings.HasPrefix(op, "q") {
 							n++
+							if op == "qx" {
+								f += "x"
+							} else {
+								f += "q"
+							}
 						}
 					}
-					proj = append(proj, strconv.Itoa(n))
+					if strings.Contains(f, "x") {
+						proj = append(proj, f)
+					} else {
+						proj = append(proj, strconv.Itoa(n))
+					}
 				}
 				k := pd.name + "/" + strings.Join(proj, ",") + "/" + hString(r)
 				if r.Seq && seen[k] {
@@ -1056,6 +1216,8 @@ func main() {
 	}
 	rep.Extra["c25_stress_calls"] = stressCalls
 	rep.Extra["c25_enqueue_hook_available"] = hookSeen.Load()
+	rep.Extra["c25_replays_with_opaque_reply"] = opaqueSeen.Load()
+	rep.Extra["c25_replays_with_opaque_reply_connection_failed"] = opaqueFailed.Load()
 	if s, ok := deadMsg.Load().(string); ok {
 		rep.Dead("%s", s)
 	}
